@@ -205,6 +205,28 @@ func (w *World) ForRun(tag string, seed int64) *World {
 	return &c
 }
 
+// WithSigma returns a copy of a fork-free world (NBranch = 1) with another size embedding; trees are shared,
+// the root tables are recomputed (cheap: MaxSize+1 roots per log).
+func (w *World) WithSigma(sigma []uint64) *World {
+	if w.P.NBranch != 1 || len(sigma) != w.P.MaxSize+1 {
+		panic("WithSigma needs a fork-free world and MaxSize+1 sizes")
+	}
+	c := *w
+	c.Sigma = sigma
+	c.Logs = map[string]*LogW{}
+	for name, l := range w.Logs {
+		lc := *l
+		lc.roots = map[string][2]int{}
+		for n := 0; n <= w.P.MaxSize; n++ {
+			r := lc.Trees[0].Root(sigma[n])
+			lc.roots[rootKey(sigma[n], r[:])] = [2]int{0, n}
+			lc.roots[rootKey(sigma[n], c.JunkRoot(&lc, n))] = [2]int{1, n}
+		}
+		c.Logs[name] = &lc
+	}
+	return &c
+}
+
 // CanonB mirrors the model's CanonB.
 func (w *World) CanonB(b, n int) int {
 	if b == w.P.NBranch || b == 0 {
@@ -375,6 +397,33 @@ func (w *World) Concretise(log string, r Req, stored *CP) Concrete {
 		var hb [4]byte
 		binary.BigEndian.PutUint32(hb[:], n.Sigs[0].Hash^1)
 		sigs = "— " + l.Key.Name + " " + base64.StdEncoding.EncodeToString(append(hb[:], n.Sigs[0].Raw...)) + "\n"
+	case "truncated":
+		// the valid note cut at a line boundary (every boundary is tried over the seeds) or in the middle of a line
+		full := text + "\n" + sigs
+		var cuts []int
+		for i := 0; i < len(full)-1; i++ {
+			if full[i] == '\n' {
+				cuts = append(cuts, i+1)
+			}
+		}
+		cut := cuts[w.Rng.Intn(len(cuts))]
+		if w.Rng.Intn(4) == 0 {
+			cut = 1 + w.Rng.Intn(len(full)-2)
+		}
+		c.CP = []byte(full[:cut])
+		renderNote += fmt.Sprintf("/cut@%d", cut)
+	case "lineedit":
+		// lines of the signed text swapped, duplicated or removed after signing
+		ls := strings.Split(strings.TrimSuffix(text, "\n"), "\n")
+		switch w.Rng.Intn(3) {
+		case 0:
+			ls[1], ls[2] = ls[2], ls[1]
+		case 1:
+			ls = append(ls[:2], ls[1:]...)
+		default:
+			ls = append(ls[:1], ls[2:]...)
+		}
+		text = strings.Join(ls, "\n") + "\n"
 	case "garbage":
 		b := make([]byte, 40+w.Rng.Intn(200))
 		w.Rng.Read(b)
